@@ -15,9 +15,9 @@ class Prop:
     vo_check = ["theories/Cookie/Check.vo"]
     vo_props = ["theories/Props/C10.vo"]
     k_names = ["cosim(device datagrams, per-peer state writes, cookie-secret epochs == Cookie.Model.step)",
-               "natural-load(saturated handshake queue without hook: only cookie replies, bound to source, round trip)"]
+               "natural-load(saturated handshake queue without hook: only cookie replies, bound to source, round trip; under-load period lasts 1 s after the LAST detection)"]
     rule = ("scenarios from one PRNG against a real device (sim bind/tun, remote side = ref): every message type and unknown "
-            "type words, sizes around 32/64/92/148, MAC1 valid/garbage/for another key/over an altered body, MAC2 zero/garbage/"
+            "type words (incl. otherwise well-formed messages of all four types with non-zero reserved bytes, MACs over the bytes as sent), sizes around 32/64/92/148, MAC1 valid/garbage/for another key/over an altered body, MAC2 zero/garbage/"
             "valid/expired (secret shifted 121 s+)/issued to another address/another port/under the previous secret, payload "
             "good/corrupt/replayed/from a stranger, with VerifForceUnderLoad on and off, both handshake roles, cookie replies to the "
             "device (good, wrong key, wrong MAC1, wrong index) and its next initiation; one natural-load scenario per run; "
